@@ -309,6 +309,278 @@ null_verify = Spec('C01', 'mac', '_NullMAC.verify', self_class='_NullMAC',
                              lambda c: c.result == (z3.Length(c.arg('sig')) == 0))], returns='bool')
 
 
+# _UMAC (umac-64 / umac-128, OpenSSH PROTOCOL): tag = UMAC(key, message = packet, nonce = UInt64(seq)); the
+# primitive is an uninterpreted function of (key, message, nonce)
+umac_f = z3.Function('umac_digest', BytesS, BytesS, BytesS, BytesS)
+
+
+def umac_new_stub(cx):
+    o = cx.fresh('obj:UM', 'um')
+    cx.st.set_field(o, 'ghost_d', VBytes(umac_f(cx.args[0].z, cx.args[1].z, cx.args[2].z)))
+    return [Out(ret=o, event=('umac', tuple(cx.args)))]
+
+
+umac_new_stub.modifies = ()
+
+UMAC_CLASSES = {'_UMAC': {'_key': 'bytes', '_hash_size': 'int', '_umac_alg': 'opaque:UmacAlg'},
+                'UM': {'ghost_d': 'bytes'}}
+
+
+def umac_tag(c):
+    return umac_f(c.old('_key'), c.arg('packet'), be(z3.IntVal(8), c.arg('seq')))
+
+
+SEQ32 = lambda c: z3.And(c.arg('seq') >= 0, c.arg('seq') < 2 ** 32)       # noqa: E731
+
+umac_sign = Spec('C01', 'mac', '_UMAC.sign', self_class='_UMAC', params=dict(seq='int', packet='bytes'),
+                 classes=UMAC_CLASSES,
+                 stubs={'self._umac_alg': umac_new_stub, 'self._umac_alg().digest': hmac_digest_stub,
+                        'UM.digest': hmac_digest_stub},
+                 requires=SEQ32,
+                 ensures=[('umac-over-packet-with-nonce-uint64-seq', lambda c: c.result == umac_tag(c))],
+                 returns='bytes')
+
+umac_verify = Spec('C01', 'mac', '_UMAC.verify', self_class='_UMAC',
+                   params=dict(seq='int', packet='bytes', sig='bytes'), classes=UMAC_CLASSES,
+                   stubs={'self.sign': contract_stub(lambda: umac_sign), 'hmac.compare_digest': compare_digest_stub},
+                   requires=SEQ32,
+                   ensures=[('verify-iff-sig-equals-umac-of-packet-under-nonce-seq',
+                             lambda c: c.result == (c.arg('sig') == umac_tag(c)))],
+                   returns='bool')
+
+
+# ------------------------------------------------------------------ crypto/cipher.py: AES-GCM (RFC 5647)
+# AES-GCM has no explicit sequence number: the 64-bit invocation counter inside the IV IS the replay / reorder
+# protection, so it has to move exactly once per packet on BOTH outcomes of the tag check.
+# library contract (cryptography.hazmat AESGCM, trusted): decrypt(iv, ct||tag, aad) returns the plaintext iff the
+# tag verifies and raises InvalidTag otherwise; encrypt(iv, pt, aad) returns ct||tag with a 16-byte tag.
+gcm_dec_f = z3.Function('aesgcm_decrypt', BytesS, BytesS, BytesS, BytesS, BytesS)   # (key, iv, ct||tag, aad)
+gcm_enc_f = z3.Function('aesgcm_encrypt', BytesS, BytesS, BytesS, BytesS, BytesS)   # (key, iv, pt, aad)
+GCM_TAG = 16
+
+
+def aesgcm_ctor(cx):
+    o = cx.fresh('obj:AESGCM', 'aesgcm')
+    cx.st.set_field(o, 'ghost_key', cx.args[0])
+    return [Out(ret=o)]
+
+
+aesgcm_ctor.modifies = ()
+
+
+def aesgcm_decrypt(cx):
+    key = cx.ex.get_field(cx.st, cx.recv, 'ghost_key')
+    iv, data, aad = cx.args
+    ev = ('gcm_decrypt', (key, iv, data, aad, cx.selff('_iv')))
+    return [Out(ret=VBytes(gcm_dec_f(key.z, iv.z, data.z, aad.z)), event=ev), Out(exc=VExc('InvalidTag'), event=ev)]
+
+
+aesgcm_decrypt.modifies = ()
+
+
+def aesgcm_encrypt(cx):
+    key = cx.ex.get_field(cx.st, cx.recv, 'ghost_key')
+    iv, data, aad = cx.args
+    ct = gcm_enc_f(key.z, iv.z, data.z, aad.z)
+    return [Out(ret=VBytes(ct), assume=[z3.Length(ct) == z3.Length(data.z) + GCM_TAG],
+                event=('gcm_encrypt', (key, iv, data, aad, cx.selff('_iv'))))]
+
+
+aesgcm_encrypt.modifies = ()
+
+GCM_CLASSES = {'GCMCipher': {'_iv': 'bytes', '_key': 'bytes'}, 'AESGCM': {'ghost_key': 'bytes'}}
+
+
+def rfc5647_next(old_iv, new_iv):
+    """RFC 5647 7.1: fixed field (4 bytes) unchanged, 64-bit invocation counter + 1 mod 2^64"""
+    return z3.And(z3.Length(new_iv) == 12, z3.Extract(new_iv, 0, 4) == z3.Extract(old_iv, 0, 4),
+                  unbe(z3.Extract(new_iv, 4, 8)) == (unbe(z3.Extract(old_iv, 4, 8)) + 1) % 2 ** 64)
+
+
+gcm_update_iv = Spec(
+    'C01', 'crypto.cipher', 'GCMCipher._update_iv', self_class='GCMCipher', classes=GCM_CLASSES,
+    requires=lambda c: z3.Length(c.old('_iv')) == 12, modifies=['_iv'],
+    ensures=[('rfc5647-invocation-counter-plus-one-fixed-field-kept',
+              lambda c: rfc5647_next(c.old('_iv'), c.new('_iv')))],
+    raises={})
+
+
+def iv_advanced_once(c):
+    """the IV after the call is the RFC 5647 successor of the IV before it - on every outcome"""
+    return rfc5647_next(c.old('_iv'), c.new('_iv'))
+
+
+def gcm_vd_post(c):
+    """one AEAD open of (ct || tag) under the CURRENT iv with the length field as AAD; the plaintext is returned
+    iff the tag verified, None otherwise"""
+    e = c.events('gcm_decrypt')
+    if len(e) != 1:
+        return z3.BoolVal(False)
+    key, iv, data, aad, iv_at = e[0][1]
+    call = c.calls('decrypt')[0]
+    conj = [key.z == c.old('_key'), iv.z == c.old('_iv'), iv_at.z == c.old('_iv'),
+            data.z == z3.Concat(c.arg('data'), c.arg('mac')), aad.z == c.arg('header')]
+    if call['exc'] is not None:
+        conj.append(c.is_none(c.result_v))
+    else:
+        conj += [z3.Not(c.is_none(c.result_v)), c.eq(c.result_v, call['ret'])]
+    return z3.And(conj)
+
+
+gcm_verify_and_decrypt = Spec(
+    'C01', 'crypto.cipher', 'GCMCipher.verify_and_decrypt', self_class='GCMCipher',
+    params=dict(header='bytes', data='bytes', mac='bytes'), classes=GCM_CLASSES,
+    stubs={'AESGCM': aesgcm_ctor, 'AESGCM().decrypt': aesgcm_decrypt,
+           'self._update_iv': contract_stub(lambda: gcm_update_iv)},
+    requires=lambda c: z3.Length(c.old('_iv')) == 12,
+    ensures=[('plaintext-released-only-when-the-tag-verified', gcm_vd_post)],
+    always=[('iv-advanced-exactly-once-also-on-a-failed-tag', iv_advanced_once)],
+    returns='opt[bytes]', raises={})
+
+
+def gcm_es_post(c):
+    e = c.events('gcm_encrypt')
+    if len(e) != 1:
+        return z3.BoolVal(False)
+    key, iv, data, aad, iv_at = e[0][1]
+    ct = c.calls('encrypt')[0]['ret'].z
+    r = c.result_v
+    return z3.And(key.z == c.old('_key'), iv.z == c.old('_iv'), iv_at.z == c.old('_iv'),
+                  data.z == c.arg('data'), aad.z == c.arg('header'),
+                  # wire = length field in clear || ciphertext, tag = the last 16 bytes of the AEAD output
+                  r.items[0].z == z3.Concat(c.arg('header'), z3.Extract(ct, 0, z3.Length(ct) - GCM_TAG)),
+                  r.items[1].z == z3.Extract(ct, z3.Length(ct) - GCM_TAG, GCM_TAG))
+
+
+gcm_encrypt_and_sign = Spec(
+    'C01', 'crypto.cipher', 'GCMCipher.encrypt_and_sign', self_class='GCMCipher',
+    params=dict(header='bytes', data='bytes'), classes=GCM_CLASSES,
+    stubs={'AESGCM': aesgcm_ctor, 'AESGCM().encrypt': aesgcm_encrypt,
+           'self._update_iv': contract_stub(lambda: gcm_update_iv)},
+    requires=lambda c: z3.Length(c.old('_iv')) == 12,
+    ensures=[('aead-seal-under-current-iv-aad-is-the-length-field', gcm_es_post)],
+    always=[('iv-advanced-exactly-once', iv_advanced_once)],
+    returns='tuple[bytes,bytes]', raises={})
+
+
+# ------------------------------------------------------------------ crypto/chacha.py: chacha20-poly1305@openssh.com
+# OpenSSH PROTOCOL.chacha20poly1305: K_2 = main key (payload, block counter 1; Poly1305 key = first 32 bytes of the
+# keystream with block counter 0), K_1 = header key; nonce = UInt64(seq); tag = Poly1305 over enc(length) || enc(payload)
+# verified BEFORE the payload is decrypted.  Primitives are uninterpreted.
+chacha_f = z3.Function('chacha20_stream', BytesS, BytesS, BytesS, IntS, BytesS)      # (key, data, nonce, ctr)
+polykey_f = z3.Function('poly1305_key', BytesS, BytesS, BytesS)                    # (key, nonce)
+polytag_f = z3.Function('poly1305_tag', BytesS, BytesS, BytesS)                    # (one-time key, data)
+
+
+def chacha20_stub(cx):
+    k, d, n, ctr = cx.args
+    ctr_z = cx.ex.as_int(ctr)
+    return [Out(ret=VBytes(chacha_f(k.z, d.z, n.z, ctr_z)), event=('chacha20', tuple(cx.args)))]
+
+
+chacha20_stub.modifies = ()
+
+
+def poly1305_key_stub(cx):
+    return [Out(ret=VBytes(polykey_f(cx.args[0].z, cx.args[1].z)))]
+
+
+poly1305_key_stub.modifies = ()
+
+
+def poly_verify_tag_stub(cx):
+    """library contract (cryptography Poly1305.verify_tag, trusted): returns normally iff tag == Poly1305(key, data),
+    raises InvalidSignature otherwise"""
+    k, d, t = cx.args
+    good = t.z == polytag_f(k.z, d.z)
+    ev = ('verify_tag', tuple(cx.args))
+    return [Out(ret=VNone, assume=[good], event=ev), Out(exc=VExc('InvalidSignature'), assume=[z3.Not(good)], event=ev)]
+
+
+poly_verify_tag_stub.modifies = ()
+
+
+def poly_generate_tag_stub(cx):
+    k, d = cx.args
+    return [Out(ret=VBytes(polytag_f(k.z, d.z)), event=('generate_tag', tuple(cx.args)))]
+
+
+poly_generate_tag_stub.modifies = ()
+
+
+def poly_ok(key, data, nonce, tag):
+    return tag == polytag_f(polykey_f(key, nonce), data)
+
+
+POLY_PARAMS = dict(key='bytes', data='bytes', nonce='bytes', tag='bytes')
+
+poly1305_verify = Spec(
+    'C01', 'crypto.chacha', 'poly1305_verify', params=POLY_PARAMS,
+    stubs={'poly1305_key': poly1305_key_stub, 'Poly1305.verify_tag': poly_verify_tag_stub},
+    globals={'Poly1305': VTag('class:Poly1305')},
+    ensures=[('true-iff-the-tag-is-the-poly1305-of-the-data-under-the-per-packet-key',
+              lambda c: c.result == poly_ok(c.arg('key'), c.arg('data'), c.arg('nonce'), c.arg('tag')))],
+    returns='bool', raises={})
+
+poly1305_sign = Spec(
+    'C01', 'crypto.chacha', 'poly1305', params=dict(key='bytes', data='bytes', nonce='bytes'),
+    stubs={'poly1305_key': poly1305_key_stub, 'Poly1305.generate_tag': poly_generate_tag_stub},
+    globals={'Poly1305': VTag('class:Poly1305')},
+    ensures=[('tag-is-the-poly1305-of-the-data-under-the-per-packet-key',
+              lambda c: c.result == polytag_f(polykey_f(c.arg('key'), c.arg('nonce')), c.arg('data')))],
+    returns='bytes', raises={})
+
+CHACHA_CLASSES = {'ChachaCipher': {'_key': 'bytes', '_adkey': 'bytes'}}
+
+
+def chacha_vd_post(c):
+    """tag checked over header || data (the ciphertext of length field and body) with the per-packet key of the MAIN
+    key; the payload keystream (block counter 1) is produced only after, and only if, the tag verified"""
+    v = c.calls('poly1305_verify')
+    if len(v) != 1:
+        return z3.BoolVal(False)
+    a = v[0]['args']
+    ok = v[0]['ret'].z
+    ks = c.events('chacha20')
+    conj = [a[0].z == c.old('_key'), a[1].z == z3.Concat(c.arg('header'), c.arg('data')),
+            a[2].z == c.arg('nonce'), a[3].z == c.arg('tag')]
+    keys = [x['key'] for x in c.calls()]
+    if ks:
+        conj += [ok, z3.BoolVal(len(ks) == 1), z3.BoolVal(keys.index('poly1305_verify') < keys.index('chacha20')),
+                 z3.Not(c.is_none(c.result_v)),
+                 c.eq(c.result_v, VBytes(chacha_f(c.old('_key'), c.arg('data'), c.arg('nonce'), z3.IntVal(1))))]
+    else:
+        conj += [z3.Not(ok), c.is_none(c.result_v)]
+    return z3.And(conj)
+
+
+chacha_verify_and_decrypt = Spec(
+    'C01', 'crypto.chacha', 'ChachaCipher.verify_and_decrypt', self_class='ChachaCipher',
+    params=dict(header='bytes', data='bytes', nonce='bytes', tag='bytes'), classes=CHACHA_CLASSES,
+    stubs={'poly1305_verify': contract_stub(lambda: poly1305_verify), 'chacha20': chacha20_stub},
+    ensures=[('payload-keystream-only-after-the-tag-verified', chacha_vd_post)],
+    returns='opt[bytes]', raises={})
+
+
+def chacha_es_post(c):
+    """header under K_1 (counter 0), payload under K_2 (counter 1), tag over the two CIPHERTEXTS under K_2's
+    per-packet Poly1305 key"""
+    hdr = chacha_f(c.old('_adkey'), c.arg('header'), c.arg('nonce'), z3.IntVal(0))
+    body = chacha_f(c.old('_key'), c.arg('data'), c.arg('nonce'), z3.IntVal(1))
+    wire = z3.Concat(hdr, body)
+    r = c.result_v
+    return z3.And(r.items[0].z == wire,
+                  r.items[1].z == polytag_f(polykey_f(c.old('_key'), c.arg('nonce')), wire))
+
+
+chacha_encrypt_and_sign = Spec(
+    'C01', 'crypto.chacha', 'ChachaCipher.encrypt_and_sign', self_class='ChachaCipher',
+    params=dict(header='bytes', data='bytes', nonce='bytes'), classes=CHACHA_CLASSES,
+    stubs={'poly1305': contract_stub(lambda: poly1305_sign), 'chacha20': chacha20_stub},
+    ensures=[('openssh-chacha20-poly1305-seal', chacha_es_post)],
+    returns='tuple[bytes,bytes]', raises={})
+
+
 # ------------------------------------------------------------------ (e) directional key separation at NEWKEYS
 # the same contract as C02's send_newkeys, registered for C01: an attacker who reflects a packet into the other
 # direction must fail the tag check, which needs the two directions to use keys derived with different letters
@@ -322,3 +594,8 @@ send_newkeys = Spec(
     requires=_c02.send_newkeys.requires,
     ensures=[('rfc4253-7.2-letters-and-directions', _c02.newkeys_keys)],
     raises={'UnicodeDecodeError': True, 'AssertionError': lambda c: z3.BoolVal(False)})
+
+# ------------------------------------------------------------------ sending side: what the sender authenticates
+# the four encrypt_packet contracts (RFC 4253 6.4 / OpenSSH etm / RFC 5647 / chacha20-poly1305) are the C02 ones,
+# registered for C01 as the sending half of "tamper-evident in both directions"
+encrypt_packet_specs = _c02.mk_encrypt_packet_specs('C01')
